@@ -13,11 +13,15 @@ static char *
 strip(char *name)
 {
 	size_t len;
+	char *copy;
 
 	len = strlen(name);
 	if (len >= 4 && name[0] == '_' && name[1] == '_' && name[len - 2] == '_' && name[len - 1] == '_') {
-		name[len - 2] = '\0';
-		name += 2;
+		/* the spelling may belong to a macro definition: leave it alone */
+		copy = xmalloc(len - 3);
+		memcpy(copy, name + 2, len - 4);
+		copy[len - 4] = '\0';
+		name = copy;
 	}
 	return name;
 }
